@@ -38,11 +38,35 @@ theorem parentNode_ref (C : Crypto) (bs : Array Bytes) (d o : Nat) :
     simp only [Node.mk.injEq, true_and]
     exact ⟨Nat.add_comm _ _, by rw [Nat.add_comm]⟩
 
-/-- the climb of `verify_tree` over the honest sibling path reaches the reference ancestor -/
+theorem sib_bound (o j : Nat) : (sib o + 1) * 2 ^ j ≤ (o / 2 + 1) * 2 ^ (j + 1) := by
+  rw [pow_succ2]
+  have h : sib o + 1 ≤ 2 * (o / 2 + 1) := by unfold sib; split <;> omega
+  calc (sib o + 1) * 2 ^ j ≤ (2 * (o / 2 + 1)) * 2 ^ j := Nat.mul_le_mul_right _ h
+    _ = (o / 2 + 1) * (2 * 2 ^ j) := by ring
+
+/-- the span of a node lies inside the span of each of its ancestors -/
+theorem span_le (o d : Nat) : ∀ k, (o + 1) * 2 ^ d ≤ (o / 2 ^ k + 1) * 2 ^ (d + k) := by
+  intro k
+  induction k generalizing o d with
+  | zero => simp
+  | succ k ih =>
+    have h1 : (o + 1) * 2 ^ d ≤ (o / 2 + 1) * 2 ^ (d + 1) := by
+      rw [Nat.pow_succ]
+      have : o + 1 ≤ (o / 2 + 1) * 2 := by omega
+      calc (o + 1) * 2 ^ d ≤ ((o / 2 + 1) * 2) * 2 ^ d := Nat.mul_le_mul_right _ this
+        _ = (o / 2 + 1) * (2 ^ d * 2) := by ring
+    have h2 := ih (o / 2) (d + 1)
+    have e1 : o / 2 / 2 ^ k = o / 2 ^ (k + 1) := by rw [Nat.div_div_eq_div_mul, Nat.pow_succ, Nat.mul_comm]
+    have e2 : d + 1 + k = d + (k + 1) := by omega
+    rw [e1, e2] at h2
+    exact Nat.le_trans h1 h2
+
+/-- the climb of `verify_tree` over the honest sibling path reaches the reference ancestor; every node it
+    records is a reference node inside that ancestor's span -/
 theorem climb_complete (C : Crypto) (bs : Array Bytes) : ∀ (k fuel d o : Nat) (rn : List Node), k < fuel →
     ∃ rn', climb C fuel (plainQueue (sibPath C bs d o k)) (iat d o) (nodeAt C bs d o) rn
         = .ok (nodeAt C bs (d + k) (o / 2 ^ k), rn')
-      ∧ (∀ n ∈ rn', n ∈ rn ∨ ∃ dn on, n = nodeAt C bs dn on) := by
+      ∧ (∀ n ∈ rn', n ∈ rn ∨ ∃ dn on, n = nodeAt C bs dn on ∧ (on + 1) * 2 ^ dn ≤ (o / 2 ^ k + 1) * 2 ^ (d + k)) := by
   intro k
   induction k with
   | zero =>
@@ -65,12 +89,15 @@ theorem climb_complete (C : Crypto) (bs : Array Bytes) : ∀ (k fuel d o : Nat) 
     have e2 : o / 2 / 2 ^ k = o / 2 ^ (k + 1) := by
       rw [Nat.div_div_eq_div_mul, Nat.pow_succ, Nat.mul_comm]
     rw [e1, e2] at h1
+    rw [e1, e2] at h2
     refine ⟨rn', h1, fun n hn => ?_⟩
+    have hsp := span_le (o / 2) (d + 1) k
+    rw [e1, e2] at hsp
     rcases h2 n hn with h | h
     · simp only [List.mem_cons] at h
       rcases h with rfl | rfl | h
-      · exact Or.inr ⟨_, _, rfl⟩
-      · exact Or.inr ⟨_, _, rfl⟩
+      · exact Or.inr ⟨_, _, rfl, hsp⟩
+      · exact Or.inr ⟨_, _, rfl, Nat.le_trans (sib_bound o d) hsp⟩
       · exact Or.inl h
     · exact Or.inr h
 
@@ -82,7 +109,8 @@ theorem block_proof_complete (C : Crypto) (bs : Array Bytes) (t : Tree) (f : Fil
     (hstored : t.node? f (Flat.index k (i / 2 ^ k)) = some (nodeAt C bs k (i / 2 ^ k))) :
     ∃ cs, t.verifyProof C f ⟨fork, some ⟨i, bs.getD i [], sibPath C bs 0 i k⟩, none, none, none⟩ pk = .ok cs
       ∧ cs.upgraded = t.changeset.upgraded ∧ cs.length = t.length
-      ∧ (∀ n ∈ cs.rnodes, ∃ dn on, n = nodeAt C bs dn on) := by
+      ∧ (∀ n ∈ cs.rnodes, ∃ dn on, n = nodeAt C bs dn on ∧ (on + 1) * 2 ^ dn ≤ (i / 2 ^ k + 1) * 2 ^ k)
+      ∧ cs.origLength = t.length ∧ cs.origFork = t.fork := by
   have hnew : Iter.new (i * 2) = iat 0 i := by rw [Nat.mul_comm]; exact new_even i
   have hleaf : blockNode C (iat 0 i).index (bs.getD i []) = nodeAt C bs 0 i := by
     simp [blockNode, nodeAt, RefTree.node, iat]
@@ -91,7 +119,7 @@ theorem block_proof_complete (C : Crypto) (bs : Array Bytes) (t : Tree) (f : Fil
   simp only [Nat.zero_add] at hc
   have hreq : t.requiredNode f (nodeAt C bs k (i / 2 ^ k)).index = .ok (nodeAt C bs k (i / 2 ^ k)) := by
     simp [Tree.requiredNode, nodeAt_index, hstored]
-  refine ⟨{ t.changeset with rnodes := rn' }, ?_, rfl, rfl, ?_⟩
+  refine ⟨{ t.changeset with rnodes := rn' }, ?_, rfl, rfl, ?_, rfl, rfl⟩
   · unfold verifyProof
     simp only [verifyTree, untrustedOf, noSeekOf, Option.isNone_some, Bool.false_and, Bool.false_eq_true,
       ite_false, seekHalf, andThen, mainHalf, hnew, plainQueue_eq, hleaf, hc, hreq]
@@ -100,9 +128,9 @@ theorem block_proof_complete (C : Crypto) (bs : Array Bytes) (t : Tree) (f : Fil
     rcases hall n hn with h | h
     · simp only [List.mem_cons] at h
       rcases h with rfl | h
-      · exact ⟨_, _, rfl⟩
+      · exact ⟨_, _, rfl, by have := span_le i 0 k; simpa using this⟩
       · simp [Tree.changeset] at h
-    · exact h
+    · simpa using h
 
 /-! ### the writer's side: `create_valueless_proof` for a block request -/
 
@@ -153,12 +181,6 @@ theorem anc_le (i : Nat) : ∀ (m j : Nat), (i / 2 ^ j + 1) * 2 ^ j ≤ (i / 2 ^
   induction m with
   | zero => intro j; exact Nat.le_refl _
   | succ m ih => intro j; exact Nat.le_trans (ih j) (anc_step i (j + m))
-
-theorem sib_bound (o j : Nat) : (sib o + 1) * 2 ^ j ≤ (o / 2 + 1) * 2 ^ (j + 1) := by
-  rw [pow_succ2]
-  have h : sib o + 1 ≤ 2 * (o / 2 + 1) := by unfold sib; split <;> omega
-  calc (sib o + 1) * 2 ^ j ≤ (2 * (o / 2 + 1)) * 2 ^ j := Nat.mul_le_mul_right _ h
-    _ = (o / 2 + 1) * (2 * 2 ^ j) := by ring
 
 theorem div_pow_succ (o k : Nat) : o / 2 / 2 ^ k = o / 2 ^ (k + 1) := by
   rw [Nat.div_div_eq_div_mul, Nat.pow_succ, Nat.mul_comm]
@@ -395,10 +417,13 @@ theorem honest_block_accepted (C : Crypto) (bs : Array Bytes) (tw : Tree) (fw : 
     ∃ nodes cs, tw.createValuelessProof fw (some ⟨i, tr.missingNodes fr (2 * i)⟩) none none none
         = .ok ⟨tw.fork, some ⟨i, nodes⟩, none, none, none⟩
       ∧ tr.verifyProof C fr ⟨tw.fork, some ⟨i, bs.getD i [], nodes⟩, none, none, none⟩ pk = .ok cs
-      ∧ (∀ n ∈ cs.rnodes, ∃ dn on, n = nodeAt C bs dn on) := by
+      ∧ (∀ n ∈ cs.rnodes, ∃ dn on, n = nodeAt C bs dn on ∧ (on + 1) * 2 ^ dn ≤ m)
+      ∧ cs.upgraded = false ∧ cs.origLength = tr.length ∧ cs.origFork = tr.fork := by
   obtain ⟨h1, h2⟩ := missingNodes_spec C bs m tr fr hS (by omega) i hi
   have hc := create_block_proof C bs tw fw hT hN hs i (tr.missingNodes fr (2 * i)) (by omega) (by omega)
-  obtain ⟨cs, hv, _, _, hall⟩ := block_proof_complete C bs tr fr pk i (tr.missingNodes fr (2 * i)) tw.fork h1
-  exact ⟨_, cs, hc, hv, hall⟩
+  obtain ⟨cs, hv, hu, _, hall, ho1, ho2⟩ := block_proof_complete C bs tr fr pk i (tr.missingNodes fr (2 * i)) tw.fork h1
+  refine ⟨_, cs, hc, hv, fun n hn => ?_, hu, ho1, ho2⟩
+  obtain ⟨dn, on, e, hb⟩ := hall n hn
+  exact ⟨dn, on, e, Nat.le_trans hb h2⟩
 
 end HC.Complete
